@@ -18,6 +18,8 @@ import Rmk.Impl.Elem
 import Rmk.Impl.ObjTree
 import Rmk.Impl.ClassTree
 import Rmk.Impl.VirtualView
+import Rmk.Impl.VirtualIter
+import Rmk.Impl.VirtualApply
 import Rmk.Impl.UintExtra
 import Rmk.Impl.DeserWork
 import Rmk.Impl.DeserTree
@@ -794,8 +796,15 @@ def runVirt (t : Ty) (v : Val) (ops : List POp) : String :=
       if decide (Virtual.Serves H src n) then
         b01 (same ((Virtual.readValM H src t m).map valStr) ((Impl.readVal H t n).map valStr) &&
           same (Virtual.viewLenM H src t m) (Impl.viewLen H t n) &&
-          (List.range 6).all fun i =>
-            same ((Virtual.readElemM H src t m i).map valStr) ((Impl.readElem H t n i).map valStr))
+          ((List.range 6).all fun i =>
+            same ((Virtual.readElemM H src t m i).map valStr) ((Impl.readElem H t n i).map valStr)) &&
+          -- … the tree-reading serialiser and `to_obj` through the stack iterators (`VirtualIterLaws.virtual_ser_obj`) …
+          same ((Virtual.serTreeM H src t m).map fun r => (hexOf r.1, r.2)) ((Impl.serTree H t n).map fun r => (hexOf r.1, r.2)) &&
+          same ((Virtual.toObjTreeM H src t m).map Obj.toJson) ((Impl.toObjTree H t n).map Obj.toJson) &&
+          -- … and the history of the plain mutations of this case applied through the view (`VirtualApplyLaws.virtual_apply_history_root`)
+          (let plain := ops.filterMap fun o => match o with | .mut (.op x) => some x | _ => none
+           same ((Virtual.applyAllM H src t m plain).map fun r => hexOf (r.root H))
+                ((Virtual.applyAll H t n plain).map fun r => hexOf (r.root H))))
       else "-"
     join ([kv "i.root" (hexOf (n.root H)), kv "iv.ok" vok] ++ runPOps t n ops "ic")
 
